@@ -1456,6 +1456,10 @@ impl<'a> Run<'a> {
         }
         if self.mon.c16 {
             self.check_c16(idx);
+            // the re-declaration sweep costs ten verifications: every other eligible token
+            if matches!(op, "mint" | "attenuate") && idx % 2 == 0 {
+                self.check_c16_byzantine(idx);
+            }
         }
         if self.mon.c15 {
             self.check_c15(idx, op);
